@@ -111,6 +111,18 @@ func (a *A) ruleGapSplit() {
 			}
 		}
 	})
+	// or a plain lookup whose result is tested for nil (`s := sw.sessionMap[key]; if s != nil`): existence is
+	// "the looked-up pointer is not nil"
+	plain := false
+	if lk == nil {
+		allInstrs(add, func(in ssa.Instruction) {
+			if l, ok := in.(*ssa.Lookup); ok && !l.CommaOk {
+				if t := TermOf(l.X, nil); t.Kind == "field" && t.Field == smap {
+					lk, plain = l, true
+				}
+			}
+		})
+	}
 	if lk == nil {
 		a.Und(construct, add.Pos(), "no comma-ok lookup in sessionMap found in Add")
 		return
@@ -155,8 +167,13 @@ func (a *A) ruleGapSplit() {
 			return ""
 		},
 		Assume: func(t *Term, v ssa.Value) Tri {
-			if v == existsV {
+			if v == existsV && existsV != nil {
 				return T // the branch under test: a session for the key exists
+			}
+			if plain {
+				if x, nilWhenTrue, ok := nilTest(v); ok && x == ssa.Value(lk) {
+					return tri(!nilWhenTrue) // the looked-up session is not nil
+				}
 			}
 			return U
 		}}
